@@ -33,6 +33,9 @@ var c13PoolExprs = []string{
 	`("ff80fe" | from_hex)`, `("ff80fe" | from_hex | tobits | .[1:14])`, `("a" | tobits | .[0:1])`, `("" | tobytes)`, `("abcd" | tobytes)`,
 	`[]`, `[[]]`, `[0,256]`, `[null]`, `[1,2,3]`, `["a","b"]`, `[[0,1],[2]]`, `[-1]`, `[1e308]`, `[{}]`,
 	`{}`, `{"a":1}`, `{"a":{"b":[1,"x",null]}}`, `{"":null}`, `{"":"a"}`, `{"a":{"b":1}}`,
+	// query-AST shaped objects with the value for their type missing (functions that take an AST: a nil member
+	// deep inside the parsed structure)
+	`{"term":{"type":"TermTypeFunc"}}`, `{"term":{"type":"TermTypeObject"}}`, `{"term":{"type":"TermTypeIf"}}`, `{"term":{"type":"TermTypeReduce"}}`, `{"op":"+"}`, `{"func_defs":[{}]}`,
 	`$dv`, `$dv.headers`, `$dv.frames[0].header.bitrate`, `$dv.frames[0].audio_data`, `$dv.frames[0].header`, `first($dv | .. | select(type=="boolean"))`,
 }
 
@@ -47,6 +50,7 @@ var c13OptExprs = []string{
 	`{force:"x"}`, `{seq:1}`, `{array:"x"}`, `{attribute_prefix:""}`, `{skip_gaps:1}`, `{encoding:"nope"}`, `{encoding:1}`, `{multi_document:"x"}`,
 	`{bits_format:"snippet", sizebase:1}`, `{bits_format:"snippet", sizebase:37}`, `{bits_format:"snippet", sizebase:-1, addrbase:99}`, `{bits_format:"truncate", sizebase:0, line_bytes:-1}`,
 	`{bits_format:"md5", display_bytes:-1, depth:-1}`, `{bits_format:"base64", addrbase:1, width:-1}`, `{bits_format:"byte_array", array_truncate:-1, string_truncate:-1}`,
+	`{color:true, byte_colors:[{ranges:[[0,256]], value:"red"}]}`, `{color:true, byte_colors:[{ranges:[[-1,5]], value:"red"}]}`,
 	`{color:true, colors: {}}`, `{colors: 1}`, `{byte_colors: [{ranges:[[5,1]], value:"x"}]}`, `{byte_colors: 1}`, `{unicode:"x"}`, `{verbose:1}`,
 	`{keep_range:1, unit:3, pad_to_units:-1}`, `{unit:0, keep_range:false, pad_to_units:0}`, `{unit:8, keep_range:true, pad_to_units:-5}`, `{unit:-8, keep_range:false, pad_to_units:1e18}`, `{flags:"x"}`, `{max_array_size:-1}`,
 }
